@@ -58,6 +58,11 @@ def opsig(t):
     return tuple(sorted(ops)), depth[0]
 
 
+# some names consist of hexadecimal digits only: a name is a name, whatever it looks like
+CONST_NAMES = ['K0', 'C0', 'K2', 'BEEF', 'A1', 'K5', 'FACE', 'K7', 'DEAD', 'K9', 'K10', 'K11', 'K12']
+ENUMERATOR_NAMES = ['EN_0', 'AD', 'EN_2', 'F00D']
+
+
 def build_schema(rng, fmt, redundant, neutral=True):
     """-> (schema IR with texts, items) items: list of dicts {role, name, tree, value, text, ...}
     isar + neutral: only expressions whose value does not depend on the precedence of << >> relative to + - * /
@@ -88,7 +93,7 @@ def build_schema(rng, fmt, redundant, neutral=True):
             v, txt = E.evaluate(t), E.render(t, rng, 0.0)
         if isar and v < 0:
             t, v, txt = mk('const', 0, 1 << 31)
-        name = 'K%d' % i
+        name = CONST_NAMES[i]
         sch.add(S.Const(name, v, txt))
         items.append({'role': 'constant', 'name': name, 'tree': t, 'value': v, 'text': txt})
         names.append((name, v))
@@ -100,7 +105,7 @@ def build_schema(rng, fmt, redundant, neutral=True):
             if v not in used:
                 break
         used.add(v)
-        name = 'EN_%d' % i
+        name = ENUMERATOR_NAMES[i]
         members.append((name, v, txt))
         items.append({'role': 'enumerator', 'name': name, 'tree': t, 'value': v, 'text': txt})
     sch.add(S.Enum('EN', members))
@@ -109,7 +114,12 @@ def build_schema(rng, fmt, redundant, neutral=True):
     # later constants may use enumerators
     for i in range(6, 9):
         t, v, txt = mk('const', 0, 1 << 31)
-        name = 'K%d' % i
+        alias = [(n, x) for n, x in names if 0 <= x < (1 << 31)]
+        if alias and rng.random() < 0.4:
+            # the whole value is another constant's (or enumerator's) name
+            t = E.Name(*rng.choice(alias))
+            v, txt = t.value, t.name
+        name = CONST_NAMES[i]
         sch.add(S.Const(name, v, txt))
         items.append({'role': 'constant', 'name': name, 'tree': t, 'value': v, 'text': txt})
         names.append((name, v))
